@@ -1,0 +1,172 @@
+//! Read-only structural snapshot of an [LruCache], compiled only with
+//! `--cfg lru_mem_verif`. It exists so that external conformance checks can
+//! observe the intrusive list and the table geometry without being able to
+//! change them. Every link is validated against the set of occupied buckets
+//! of the live table (plus the seal) *before* it is followed, so that a
+//! dangling link is reported as data instead of being dereferenced.
+
+use crate::LruCache;
+
+use std::mem;
+
+/// One node of the intrusive list as seen by [LruCache::verif_snapshot].
+#[derive(Clone, Debug, PartialEq, Eq)]
+pub struct VerifNode {
+
+    /// Address of the entry (a bucket of the live table).
+    pub addr: usize,
+
+    /// Index of the bucket holding the entry.
+    pub bucket: usize,
+
+    /// The size recorded for the entry.
+    pub size: usize,
+
+    /// Raw value of the link towards the less recently used neighbor.
+    pub prev: usize,
+
+    /// Raw value of the link towards the more recently used neighbor.
+    pub next: usize
+}
+
+/// A read-only structural snapshot of an [LruCache].
+#[derive(Clone, Debug, PartialEq, Eq)]
+pub struct VerifSnapshot {
+
+    /// Address of the seal.
+    pub seal: usize,
+
+    /// Raw value of the seal's link to the least-recently-used entry.
+    pub seal_prev: usize,
+
+    /// Raw value of the seal's link to the most-recently-used entry.
+    pub seal_next: usize,
+
+    /// Address identifying the live table allocation (end of its data part).
+    pub table: usize,
+
+    /// Number of buckets of the live table.
+    pub buckets: usize,
+
+    /// Number of occupied buckets of the live table.
+    pub items: usize,
+
+    /// Reported capacity of the live table.
+    pub capacity: usize,
+
+    /// Recorded total size.
+    pub current_size: usize,
+
+    /// Size limit.
+    pub max_size: usize,
+
+    /// Size in bytes of one entry (distance between neighboring buckets).
+    pub stride: usize,
+
+    /// Addresses of all occupied buckets, ascending.
+    pub full: Vec<usize>,
+
+    /// Nodes reached from the seal following `prev` links, i.e. from least-
+    /// to most-recently-used.
+    pub lru_to_mru: Vec<VerifNode>,
+
+    /// Whether the walk above returned to the seal through valid links only
+    /// and within `items` steps.
+    pub lru_to_mru_closed: bool,
+
+    /// Nodes reached from the seal following `next` links, i.e. from most-
+    /// to least-recently-used.
+    pub mru_to_lru: Vec<VerifNode>,
+
+    /// Whether the walk above returned to the seal through valid links only
+    /// and within `items` steps.
+    pub mru_to_lru_closed: bool
+}
+
+impl<K, V, S> LruCache<K, V, S> {
+
+    /// Takes a read-only structural snapshot of this cache. No key or value is
+    /// accessed and no link that does not point to the seal or an occupied
+    /// bucket of the live table is followed.
+    pub fn verif_snapshot(&self) -> VerifSnapshot {
+        let seal = self.seal.addr();
+        let table = self.table.data_end().as_ptr() as usize;
+        let mut full = Vec::with_capacity(self.table.len());
+        let mut indices = Vec::with_capacity(self.table.len());
+
+        unsafe {
+            for bucket in self.table.iter() {
+                full.push(bucket.as_ptr() as usize);
+                indices.push(self.table.bucket_index(&bucket));
+            }
+        }
+
+        let mut sorted: Vec<(usize, usize)> =
+            full.iter().cloned().zip(indices.iter().cloned()).collect();
+        sorted.sort();
+
+        let lookup = |addr: usize| -> Option<usize> {
+            sorted.binary_search_by_key(&addr, |&(a, _)| a)
+                .ok()
+                .map(|i| sorted[i].1)
+        };
+
+        let seal_prev = self.seal.get().prev.addr();
+        let seal_next = self.seal.get().next.addr();
+        let limit = sorted.len();
+
+        let walk = |start: usize, forward: bool| -> (Vec<VerifNode>, bool) {
+            let mut nodes = Vec::new();
+            let mut cursor = start;
+
+            loop {
+                if cursor == seal {
+                    return (nodes, true);
+                }
+
+                if nodes.len() >= limit {
+                    return (nodes, false);
+                }
+
+                let bucket = match lookup(cursor) {
+                    Some(bucket) => bucket,
+                    None => return (nodes, false)
+                };
+
+                let entry = unsafe {
+                    &*(cursor as *const crate::entry::Entry<K, V>)
+                };
+                let node = VerifNode {
+                    addr: cursor,
+                    bucket,
+                    size: entry.size,
+                    prev: entry.prev.addr(),
+                    next: entry.next.addr()
+                };
+                cursor = if forward { node.prev } else { node.next };
+                nodes.push(node);
+            }
+        };
+
+        let (lru_to_mru, lru_to_mru_closed) = walk(seal_prev, true);
+        let (mru_to_lru, mru_to_lru_closed) = walk(seal_next, false);
+
+        VerifSnapshot {
+            seal,
+            seal_prev,
+            seal_next,
+            table,
+            buckets: self.table.buckets(),
+            items: self.table.len(),
+            capacity: self.table.capacity(),
+            current_size: self.current_size,
+            max_size: self.max_size,
+            stride: mem::size_of::<crate::entry::Entry<K, V>>(),
+            full: sorted.iter().map(|&(a, _)| a).collect(),
+            lru_to_mru,
+            lru_to_mru_closed,
+            mru_to_lru,
+            mru_to_lru_closed
+        }
+    }
+}
